@@ -17,6 +17,8 @@ namespace tracked
         // only be constructed inside one of these storage intervals
         std::vector<std::pair<const char *, const char *>> zones;
         bool guard = false;
+        // fault injection: the k-th value/copy construction from now throws (0 = off)
+        int throw_after = 0;
         uint64_t constructed = 0, destroyed = 0, cells = 0;
         void reset(const char *p)
         {
@@ -24,6 +26,7 @@ namespace tracked
             prop = p;
             zones.clear();
             guard = false;
+            throw_after = 0;
             constructed = destroyed = 0;
             cells = 0;
         }
@@ -34,6 +37,18 @@ namespace tracked
         return r;
     }
     inline std::string sig(const char *what) { return std::string(reg().prop) + "/lifetime-" + what; }
+    struct Boom
+    {
+    };
+    inline void maybe_throw()
+    {
+        Registry &r = reg();
+        if (r.throw_after > 0 && --r.throw_after == 0)
+        {
+            kit::fault("element_constructor_throws");
+            throw Boom();
+        }
+    }
 
     struct T
     {
@@ -75,12 +90,14 @@ namespace tracked
         }
         T(int x) : v(x), cell(nullptr)
         {
+            maybe_throw(); // before the object counts as constructed
             born("value constructor");
             cell = new int(x);
             reg().cells++;
         }
         T(const T &o) : v(0), cell(nullptr)
         {
+            maybe_throw();
             born("copy constructor");
             if (alive(&o, "copy-from-dead")) v = o.v;
             cell = new int(v);
